@@ -1,5 +1,7 @@
 import MW.Inv.GReach
 import MW.Props.C05
+import MW.Inv.WorldInv
+import MW.Inv.Demo
 /-!
 # C02 — Contract-held staked asset always equals what it owes (solvency)
 
@@ -9,10 +11,10 @@ owed to open requests never exceed what was received (`claims_covered`), every o
 pays out pays exactly its own claim and removes it (`withdraw_pays_own_claim`, `fee_withdraw`,
 `recover` in C07), and no handler pays from another party's claim.
 
-The ledger equation itself (balance = Σ(received − paid) + fees + refundable + donations − swept)
-is about the chain's bank; it is evaluated on the simulator's ledgers and the real contract's
-answers on every run (monitor `N2_solvency`) and stated as `N2` below for the record; its proof
-over the chain model is not completed (`C02_balance_partial`).
+The ledger equation itself (balance + swept + paid = received + fees + refundable + donations) is
+about the chain's bank: `C02_solvency` proves it on the chain model's bank ledger for every history
+that satisfies the honest-environment conditions (DESIGN.md §12); the same equation is evaluated on
+the simulator's ledgers and the real contract's answers on every run (monitor `N2_solvency`).
 -/
 namespace MW.Props.C02
 open MW MW.Staking
@@ -88,14 +90,35 @@ theorem fee_withdraw_pays_fees (s s' : CState) (env : Env) (info : Info) (x : Na
 def N2 (balance swept fees refundable donated : Nat) (owed : Nat) : Prop :=
   balance + swept = owed + fees + refundable + donated
 
-/-- what is proved of the ledger equation: the three obligation terms that the contract itself
-controls change only together with a payment of the same amount (see the theorems above and
-`C07.recover_spec`); the bank side is the chain model's -/
-theorem C02_balance_partial (s s' : CState) (env : Env) (info : Info) (b : Nat) (out : List SubMsg)
+/-- a withdrawal touches neither the fee counter nor the packet table -/
+theorem withdraw_touches_only_requests (s s' : CState) (env : Env) (info : Info) (b : Nat) (out : List SubMsg)
     (h : withdraw s env info b = .ok (s', out)) :
     s'.st.totalFees = s.st.totalFees ∧ s'.inflight = s.inflight := by
   obtain ⟨_, _, _, _, _, _, _, h1, _, h3, _⟩ := withdraw_pays_own_claim s s' env info b out h
   exact ⟨by rw [h1], h3⟩
+
+open MW.Chain in
+/-- **N2 (solvency), every history.**  Along every history of the chain model that satisfies the
+honest-environment conditions, the contract's own balance of the staked asset on the bank ledger,
+plus the native total that was swept into the fee counter without tokens, plus everything paid out
+by withdrawals, equals: what came back for Received batches + the accrued fees + the refunded
+outbound transfers awaiting re-send + what was given to the contract outside the protocol.
+Together with `claims_covered` (paid so far + still owed ≤ received, per batch) the contract always
+holds what its open requests, the treasury and the refundable packets are owed -/
+theorem C02_solvency {env : Env} {info : Info} {msg : InstantiateMsg} {c0 : CState} {out : List SubMsg}
+    (hi : instantiate env info msg = .ok (c0, out)) (self pfx : String) (t hgt : Nat) (evs : List Event)
+    (hok : AllOK (bootWorld c0 self pfx t hgt) evs) :
+    let r := runW (bootWorld c0 self pfx t hgt) {} evs
+    (r.1.bal r.1.self r.1.c.config.proto.ibcDenom : Int) + r.2.swept + r.2.paid = owedD r.1.c + r.2.donD :=
+  (world_history_winv hi self pfx t hgt evs hok).n2
+
+/-! non-vacuity of `C02_solvency`: the demo history ends with balance 100, owed 580 (480 received,
+100 fees), 480 paid out -/
+section Demo
+open MW.Chain MW.Chain.Demo
+#guard (demoBoot.map fun w => allOKb w demoEvents) == some true
+#guard (demoBoot.map fun w => let r := runW w {} demoEvents; ((summary r.1 r.2).drop 7).take 3) == some [100, 580, 480]
+end Demo
 
 /-- non-vacuity: received 1000 for total 300 with open requests 100 and 200: owed 333 + 666 ≤ 1000 -/
 example : owedOpen [⟨1, "a", 100⟩, ⟨1, "b", 200⟩, ⟨2, "a", 5⟩] 1 1000 300 = 999 := by decide
